@@ -2,17 +2,14 @@ import SamVerif.Props.C08
 /-! Axiom audit of every C08 property theorem (parsed by vlib/common.py). -/
 open SamVerif.Fmt
 #print axioms roundtrip_expr_counterexample
-#print axioms shortcut_regroups_mul_div
-#print axioms shortcut_regroups_comparison
-#print axioms nested_unary_unparsable
-#print axioms concat_level_mismatch
+#print axioms shortcut_regroups_same_operator
+#print axioms former_witnesses_roundtrip
 #print axioms roundtrip_expr_partial
 #print axioms parseFuel_stable
-#print axioms roundtrip_expr_never_wrong
+#print axioms paren_insensitive
 #print axioms roundtrip_expr_in_context
-#print axioms rt_of_clean
-#print axioms roundtrip_expr_clean
-#print axioms roundtrip_str_counterexample
-#print axioms roundtrip_str_partial
+#print axioms rt_of_noShortcut
+#print axioms roundtrip_expr_noShortcut
+#print axioms roundtrip_str
 #print axioms roundtrip_int
 #print axioms minus_not_merged
